@@ -331,10 +331,13 @@ pub fn resume_enter(name: &str) {
 }
 /// the coroutine switched off its stack and left an event source to subscribe to:
 /// what follows runs on its behalf on this thread ("kernel tail")
+static KSEQ: std::sync::atomic::AtomicU64 = std::sync::atomic::AtomicU64::new(0);
 pub fn subscribe_enter(name: &str) {
     if hooks().is_some() {
         pop_actor();
-        push_actor(format!("k:{name}"));
+        // kernel tails of one coroutine can overlap: give each instance its own number
+        let k = KSEQ.fetch_add(1, std::sync::atomic::Ordering::Relaxed);
+        push_actor(format!("k:{name}#{k}"));
         note("subscribe_enter", name);
     }
 }
@@ -348,7 +351,8 @@ pub fn subscribe_leave(name: &str) {
 pub fn finish_enter(name: &str) {
     if hooks().is_some() {
         pop_actor();
-        push_actor(format!("k:{name}"));
+        let k = KSEQ.fetch_add(1, std::sync::atomic::Ordering::Relaxed);
+        push_actor(format!("k:{name}#{k}"));
         note("finish_enter", name);
     }
 }
